@@ -171,8 +171,13 @@ def spec_ns(p):
             return T(a) == float(b)
         except Exception:                       # noqa: BLE001
             return a == b
+    def LPr(pt):
+        # the log-prior of the concrete model (Model.batch_evaluate_log_prior)
+        return -math.inf if (pt.v[0] < 0.1 and pt.v[1] < 0.1) else 0.0
+
     return dict(Rf=Rf, RJ=RJ, LPX=LPX, col=col, ncol=ncol, mixrow=mixrow,
-                E=E, InUnit=InUnit, _veq=_veq,
+                E=E, InUnit=InUnit, _veq=_veq, LPr=LPr,
+                isfinite=lambda x: math.isfinite(float(x)),
                 isnan=lambda x: isinstance(x, float) and math.isnan(x))
 
 
